@@ -186,7 +186,7 @@ pub fn run(ctx: &Ctx, rep: &mut Report) {
     let mut idx = 0u64;
     'all: for k in ks {
         let h = (k - 1) / 2;
-        let members = if thorough { 3 } else if k <= 7 { 2 } else { 1 };
+        let members = if thorough || k <= 7 { 2 } else { 1 };
         for member in 0..members {
             let l = 6 * k;
             let anc7 = repeat_free(l + k, k, 0, ctx.seed * 10 + member as u64);
